@@ -108,6 +108,11 @@ func init() {
 		Decides:    "agreement of the escape tables that are written twice: for String, Char and Symbol inspect and the lexer scanners that read their output, every single-letter escape written for a character is decoded to that character, every character the scanner treats specially when unescaped (delimiter, backslash, interpolation openers) is escaped by the writer, and `\\xNN`, which the scanner decodes to one byte, is written only for values below 0x80 or for raw bytes of the string.",
 		NotCovered: "numeric formatting (float %g round trip, big floats, literal bases and suffixes), String#to_int, regex inspect, and nesting of collections: these depend on numeric values, not on table shape.",
 	}
+	props["C25"] = &PropSpec{
+		Rules:      []string{"effect/mayfatal-unlock", "path/recoverguard", "path/ctx-blocking"},
+		Decides:    "the `errors rather than crashes` half of the property: (1) no unlock of a sync mutex driven by the program can reach the Go runtime's unrecoverable fatal error (every unpaired Unlock/RUnlock is dominated by a test of state the wrapper tracks); (2) every send, close, reflect.Select and wait-group decrement on an object the program holds is either under a deferred recover() or guarded by a tracked counter; (3) the context-aware channel operations are arms of a select that also watches the context.",
+		NotCovered: "FIFO delivery, exactly-once delivery, mutual exclusion, select fairness and Once's run-once guarantee: properties of schedules, delegated to Go's channels and sync package.",
+	}
 	props["C27"] = &PropSpec{
 		Rules:      []string{"cover/deepcopy", "repl/snapshot-restore", "cache/invalidate"},
 		Decides:    "the rollback half of the property (a rejected input leaves no trace) at the level of record fields: every DeepCopyEnv method of the type environment writes every field of the copy it returns (or the field is read nowhere, or it is rebuilt by the registerAsChild protocol), and the checker's REPL entry point stores back every snapshot it took, on every path, when the input is rejected, and drops the memoised copies of the scope stacks it replaces.",
